@@ -97,6 +97,23 @@ func (r *mgrRig) start(types []datatransfer.TypeIdentifier) {
 		r.t.Fatalf("HARNESS manager not ready after %s", watchdog)
 	}
 	if (r.fence == datatransfer.ChannelID{}) {
+		if len(r.opts) > 0 && len(types) > 0 {
+			// A channel monitor may be configured (with accept / complete timeouts of milliseconds):
+			// it watches the channels this node initiates. The fence channel must never be ended by
+			// it, so here it is a channel the node responds to: an incoming push from a peer of its own.
+			tid := datatransfer.TransferID(0xfe0ce)
+			chid := datatransfer.ChannelID{Initiator: gen.Peer(15), Responder: r.self, ID: tid}
+			req := newRequestMsg(tid, false, false, datatransfer.TypedVoucher{Type: types[0], Voucher: basicnode.NewString("fence")}, gen.CidOf([]byte("fence")), basicnode.NewString("fence"))
+			r.net.Delegate().ReceiveRequest(bg(), gen.Peer(15), req)
+			r.fence = chid
+			if _, err := r.flush(chid); err != nil {
+				r.t.Fatalf("HARNESS open fence channel (responder side): %v", err)
+			}
+			if !r.pub.waitCount(chid, 2, watchdog) {
+				r.t.Fatalf("HARNESS fence channel Open / Accept not delivered")
+			}
+			return
+		}
 		chid, err := mgr.OpenPushDataChannel(bg(), gen.Peer(15), datatransfer.TypedVoucher{Type: "fence", Voucher: basicnode.NewString("fence")}, gen.CidOf([]byte("fence")), basicnode.NewString("fence"))
 		if err != nil {
 			r.t.Fatalf("HARNESS open fence channel: %v", err)
@@ -107,16 +124,6 @@ func (r *mgrRig) start(types []datatransfer.TypeIdentifier) {
 		_, _ = r.flush(chid)
 		if !r.pub.waitCount(chid, 1, watchdog) {
 			r.t.Fatalf("HARNESS fence channel Open not delivered")
-		}
-		if len(r.opts) > 0 {
-			// a channel monitor may be configured with an accept timeout: the fence channel is
-			// accepted at once so that the monitor leaves it alone
-			resp, _ := message.NewResponse(chid.ID, true, false, nil)
-			_ = mgr.(datatransfer.EventsHandler).OnResponseReceived(chid, resp)
-			_, _ = r.flush(chid)
-			if !r.pub.waitCount(chid, 2, watchdog) {
-				r.t.Fatalf("HARNESS fence channel Accept not delivered")
-			}
 		}
 	}
 }
